@@ -212,6 +212,7 @@ impl ObjFileFormat for BinaryFormat {
             }),
             None => None,
         };
+        check_relocations(&block_map, &rel_map)?;
         let sym = (!label_map.is_empty() || debug_symbols.is_some())
             .then_some(SymbolTable { label_map, debug_symbols, rel_map });
         Some(ObjectFile {
@@ -221,6 +222,17 @@ impl ObjFileFormat for BinaryFormat {
     }
 }
 
+/// Checks that every relocation entry points at a word of one of the blocks.
+/// 
+/// Linking replaces the word at that address, so an entry pointing anywhere else is malformed.
+fn check_relocations(block_map: &BTreeMap<u16, Vec<Option<u16>>>, rel_map: &HashMap<u16, String>) -> Option<()> {
+    rel_map.keys()
+        .all(|&addr| {
+            block_map.range(..=addr).next_back()
+                .is_some_and(|(&start, block)| usize::from(addr - start) < block.len())
+        })
+        .then_some(())
+}
 fn take<const N: usize>(data: &mut &[u8]) -> Option<[u8; N]> {
     take_slice(data, N)
         .map(|slice| <[_; N]>::try_from(slice).unwrap())
@@ -550,6 +562,7 @@ impl ObjFileFormat for TextFormat {
             }),
             None => None,
         };
+        check_relocations(&block_map, &rel_map)?;
         let sym = (!label_map.is_empty() || debug_symbols.is_some())
             .then_some(SymbolTable { label_map, debug_symbols, rel_map });
         Some(ObjectFile {
